@@ -74,6 +74,7 @@ def unstuff(raw: bytes) -> bytes:
 def stuff(b: bytes, extra: frozenset | set = frozenset()) -> bytes:
     """Octet stuffing: flag and escape octets always, 'extra' octet values optionally."""
     out = bytearray()
+    extra = set(extra) - {0x5E, 0x5D}  # escaping these would put a flag / escape octet on the wire
     for o in b:
         if o == FLAG or o == ESC or o in extra:
             out.append(ESC)
